@@ -1,5 +1,5 @@
 import PhyVerif.Model.C01
-import PhyVerif.Model.C16c
+import PhyVerif.Model.C16d
 /-!
 C01, the reader OBJECTS: what each backend's constructor stores (phylib/io/traces.py
 `FlatEphysReader.__init__` :323-345, `ArrayEphysReader.__init__` :414-423, `NpyEphysReader.__init__`
@@ -61,11 +61,14 @@ inductive Source (α : Type) where
   /-- a list of opened compressed files: metadata and the recording the decoder yields -/
   | cbin (readers : List (CMeta × List α))
 
-/-- `ArrayEphysReader.__init__` (traces.py:414-423): `assert sample_rate > 0`; `chunk_size`;
-`_get_chunk_bounds` asserts `chunk_size > 0` -/
+/-- `ArrayEphysReader.__init__` (traces.py:414-423): `assert sample_rate > 0`; `chunk_size =
+int(round(600.0 * sample_rate))` — the FLOAT product, `C16.chunkSizeFl` of `Model/C16d.lean` (the model C16 has of
+the same line; not the exact-rational `C16.chunkSize`, which accepts rates such as the double `1/1200` that the
+code rejects); `_get_chunk_bounds` asserts `chunk_size > 0`.  Not modelled: a rate whose float product overflows
+(`round(inf)`: OverflowError; excluded by `RateOK`, `Spec/C01b.lean`). -/
 def buildArray {α : Type} (be : Backend) (a : Arr α) (rate : Rat) : Option (Reader α) :=
   if rate ≤ 0 then none else
-  match C16.readerChunkBounds [a.rows.length] rate with
+  match C16.readerChunkBoundsFl [a.rows.length] rate with
   | none => none
   | some cb => some
     { backend := be, store := [a.rows], partBounds := [0, a.rows.length], chunkBounds := cb,
@@ -82,7 +85,7 @@ def build {α : Type} : Source α → Option (Reader α)
     else
       -- `arr.shape[0] for arr in self._mmaps` (:340-342): the row count `_memmap_flat` derived from the size
       let sizes := files.map fun f => memmapRows f.fsize off isz nch
-      match C16.readerChunkBounds sizes rate with
+      match C16.readerChunkBoundsFl sizes rate with
       | none => none                   -- `assert chunk_size > 0`
       | some cb => some
         { backend := .flat, store := files.map (·.rows), partBounds := C16.partBounds sizes,   -- `_get_part_bounds`: `[0] + cumsum`
